@@ -4,7 +4,7 @@ Every random choice derives from the rng passed in (one seeded PRNG per history)
 from harness import ops
 
 VERSIONS = [0, 4, 7, 8, 11, 12, 13, 14, 18, 19, 20, 25, 26, 27, 28, 29, 30, 33, 34, 36, 37, 38, 39]
-RATIOS = [1.0, 1.0, 1.0, 1.5, 16.0, 0.7, 0.1, 1 / 3, 2.5, 0.5, 1.0000000000000002, 4.0, 0.9999999999999999, 3.3]
+RATIOS = [1.0, 1.0, 1.0, 1.5, 16.0, 0.7, 0.1, 1 / 3, 2.5, 0.5, 1.0000000000000002, 4.0, 0.9999999999999999, 3.3, 0.0, -0.5, 1.0, 2.0]
 RCS = [0, 1, 2, 0, 1, 2, 5, 1000, 1001, 1003]      # VCPU, MEMORY_MB, DISK_GB, ..., custom names
 N_RP, N_NAME, N_CONS, N_AGG = 5, 6, 4, 3
 TRAITS = [0, 1, 2, 3, 100001, 100002, 100003]
@@ -53,7 +53,7 @@ FORCE = None
 TARGETS = ('joint_claim', 'joint_claim_reshape', 'conflict_tail', 'conflict_tail_reshape', 'drop_in_use',
            'resize_in_use', 'agg_share', 'agg_share', 'float_edge', 'float_edge', 'drop_held_by_other', 'move', 'retighten')
 # (total, allocation_ratio) whose double product is just BELOW an integer: total * ratio = c - epsilon; capacity is c - 1
-FLOAT_EDGES = [(100, 1.15), (90, 0.7), (180, 0.35), (50, 2.3), (180, 1.15), (170, 0.7)]
+FLOAT_EDGES = [(100, 1.15), (90, 0.7), (180, 0.35), (50, 2.3), (180, 1.15), (170, 0.7), (8, 0.0), (8, 0.0), (4, 0.0)]
 
 
 def gate(rng, name, p_skip):
@@ -127,7 +127,7 @@ def gen_cons(rng, st, v, allow_empty):
     elif rng.random() < 0.1:
         gen = 0
     d = {'uuid': c, 'allocs': gen_allocs(rng, st, allow_empty=allow_empty),
-         'proj': rng.randint(1, 2), 'user': rng.randint(1, 2), 'gen': gen if v >= 28 else None,
+         'proj': rng.choice([1, 2, 3, 3]), 'user': rng.choice([1, 2, 3, 3]), 'gen': gen if v >= 28 else None,
          'type': rng.randint(1, 2) if v >= 38 else None}
     if v < 8:
         d['proj'] = None
@@ -355,10 +355,11 @@ def gen_op(rng, dump, profile='default'):
                 ratio = inv[7] * 2.0 ** inv[8]
                 cap = (inv[2] - inv[3]) * ratio
                 c = math.ceil(cap)
-                if c != cap and c - cap < 1e-9 * c and inv[6] == 1 and inv[4] <= 1 and inv[5] >= c:
+                zero = (ratio == 0.0 and inv[2] > inv[3])       # ratio 0: capacity 0 whatever the total - a claim of 1 must be refused
+                if (zero or (c != cap and c - cap < 1e-9 * c)) and inv[6] == 1 and inv[4] <= 1 and inv[5] >= max(c, 1):
                     free_c = [k for k in range(1, N_CONS + 1) if k not in st.cons]
                     if free_c:
-                        need = c - st.used(u, rc)
+                        need = 1 if zero else c - st.used(u, rc)
                         if need >= 1:
                             return ('alloc_put', 39, {'uuid': free_c[0], 'allocs': [(u, [(rc, need)])], 'proj': 1, 'user': 1,
                                                       'gen': None, 'type': 1})
